@@ -342,6 +342,40 @@ theorem run_eq_addAll (w : Nat) (ops : List (Op K)) :
     simp only [List.foldl_cons, List.flatMap_cons]
     rw [ih, addAll_append]; rfl
 
+/-! bulk additions: what `update` adds is what the mapping / keyword counts ask for -/
+
+theorem count_expand (k : K) (kcs : List (K × Nat)) : (expand kcs).count k = wsum k kcs := by
+  induction kcs with
+  | nil => simp [expand, wsum]
+  | cons a as ih =>
+    simp only [expand, wsum, List.flatMap_cons, List.count_append, List.map_cons, List.sum_cons] at ih ⊢
+    rw [ih, List.count_replicate]
+    by_cases h : a.1 = k <;> simp [h]
+
+theorem length_expand (kcs : List (K × Nat)) : (expand kcs).length = (kcs.map (·.2)).sum := by
+  induction kcs with
+  | nil => simp [expand]
+  | cons a as ih =>
+    simp only [expand, List.flatMap_cons, List.length_append, List.length_replicate, List.map_cons,
+      List.sum_cons] at ih ⊢
+    rw [ih]
+
+theorem flatten_count (op : Op K) (k : K) : op.flatten.count k = op.weight k := by
+  cases op with
+  | add k' => by_cases h : k' = k <;> simp [Op.flatten, Op.weight, h]
+  | updateKeys ks => simp [Op.flatten, Op.weight]
+  | updateMap kcs => simp [Op.flatten, Op.weight, count_expand]
+  | updateKeysKw ks kws => simp [Op.flatten, Op.weight, count_expand, List.count_append]
+  | updateMapKw kcs kws => simp [Op.flatten, Op.weight, count_expand, List.count_append]
+
+theorem stream_count (ops : List (Op K)) (k : K) :
+    (stream ops).count k = (ops.map (Op.weight k)).sum := by
+  induction ops with
+  | nil => simp [stream]
+  | cons o os ih =>
+    simp only [stream, List.flatMap_cons, List.count_append, List.map_cons, List.sum_cons] at ih ⊢
+    rw [ih, flatten_count]
+
 /-! sorting lemmas for `most_common` -/
 
 theorem insDesc_perm (x : K × Nat) (l : List (K × Nat)) : (insDesc x l).Perm (x :: l) := by
